@@ -37,7 +37,7 @@ def split_cases(draw, nums=("frac",)):
     if nodes and draw(st.booleans()):
         nodes.append(nodes[0])
     return {"curve": c, "mode": mode, "nodes": nodes, "twin_first": draw(st.integers(0, 2)) == 0,
-            "container": draw(st.sampled_from(["list", "tuple"]))}
+            "container": draw(st.sampled_from(["list", "tuple", "gen", "iter", "map", "objarray"]))}
 
 
 def check_split(case, out):
@@ -75,7 +75,7 @@ def check_split(case, out):
     else:
         lnodes = [lib.conv_knot(z, num) for z in case["nodes"]]
         nodes = [oracle.frac(z) for z in lnodes]
-        pieces = curve.split(tuple(lnodes) if case["container"] == "tuple" else list(lnodes))
+        pieces = curve.split(lib.seq_form(lnodes, case["container"]))
     if lib.snapshot(curve) != snap:
         out.fail("operand-modified", kind, "split changed the curve")
     cuts = sorted(set([bk[0], bk[-1]] + nodes))
